@@ -109,5 +109,14 @@ Theorem safe_join_acceptance_base_independent : forall base base' nm,
   safe_join base nm = None <-> safe_join base' nm = None.
 Proof. exact safe_join_accept_base_independent. Qed.
 
+(* non-vacuity: both sides of the characterisation are inhabited ("a/b" accepted; "a/.b", "a\b" refused;
+   "//abs" - two empty segments, then a plain one - accepted and, by safe_join_confined, joined beneath) *)
+Example acceptance_witness :
+  existsb bad_segment (split_slash [97; 47; 98]) = false /\ safe_join [116] [97; 47; 98] = Some [116; 47; 97; 47; 98] /\
+  existsb bad_segment (split_slash [97; 47; 46; 98]) = true /\ safe_join [116] [97; 47; 46; 98] = None /\
+  existsb bad_segment (split_slash [97; 92; 98]) = true /\ safe_join [116] [97; 92; 98] = None /\
+  safe_join [116] [47; 47; 97] = Some [116; 47; 97].
+Proof. vm_compute. repeat split. Qed.
+
 Print Assumptions safe_join_rejects_exactly.
 Print Assumptions safe_join_acceptance_base_independent.
